@@ -218,10 +218,22 @@ class Real:
                 wait_index += 1
                 # give ninja time to clean up and exit
                 try:
-                    proc.wait(timeout=5)
+                    proc.wait(timeout=1.5)
                 except subprocess.TimeoutExpired:
-                    obs["no_exit_after_signal"] = True
-                    proc.kill()
+                    # ninja may be waiting for commands it did not kill (a build given up because a *command* died of the
+                    # signal is wound down by waiting for the others): real commands end by themselves, gated ones
+                    # have to be let go.  A ninja that had to be SIGKILLed can return nothing, which would be our doing.
+                    obs["waited_for_commands_after_signal"] = True
+                    for ident in [i for i in self.started_files() if i not in released]:
+                        with open(os.path.join(self.ctl, "go." + ident + ".tmp"), "w") as g:
+                            g.write("ok")
+                        os.rename(os.path.join(self.ctl, "go." + ident + ".tmp"), os.path.join(self.ctl, "go." + ident))
+                        released.append(ident)
+                    try:
+                        proc.wait(timeout=5)
+                    except subprocess.TimeoutExpired:
+                        obs["no_exit_after_signal"] = True
+                        proc.kill()
                 break
             c = choices[wait_index] if wait_index < len(choices) else 0
             wait_index += 1
